@@ -11,14 +11,14 @@ CHECKS = {
   "Static, partial. Decides for ALL inputs the structural clauses: every successful lookup result is serialize(estimate) with "
   "estimate.resolution == the resolution argument (world cell only for -1); the early return is dominated by containment(estimate, query point) > 0 "
   "for the very estimate returned; the fallback is the arg-max of the recorded (estimate, containment) pairs; one curve depth r-FIRST+1 in ij_to_s, "
-  "lattice scale, s_to_anchor and get_pentagon_vertices; containment is the exact sign of the edge cross product (threshold literally 0); probe estimates are de-duplicated by their serialized ID only (R6); shared: every longitude wrap moves by a full period (C19.A5); the inverse-projection pairing rules C15.S1/S3/S4. Does NOT decide that the probe search reaches the containing cell, the edge band, "
+  "lattice scale, s_to_anchor and get_pentagon_vertices; containment is the exact sign of the edge cross product (threshold literally 0); probe estimates are de-duplicated by their serialized ID only (R6); shared: every longitude wrap moves by a full period (C19.A5); the inverse-projection pairing rules C15.S1/S3/S4 and the sector-reduced reflection azimuth C15.S6; no explicitly constructed error result of lonlat_to_cell / lonlat_to_estimate is reachable for latitude in [-90,90], finite longitude, resolution 0..29 (R7, interval analysis over exactly that domain). Does NOT decide that the probe search reaches the containing cell, the edge band, "
   "periodicity or poles (numerical over a continuum)."),
  "C02": ("6/C02", "custom MIR dataflow rules (provenance, sibling dispatch comparison)",
   "Static, thin partial. Decides: centre = inverse projection on the cell's own face of the centroid of get_pentagon(decode(cell)); get_pentagon and the "
-  "containment test build geometry with the same constructors, thresholds and quintant; shared: C01.R5 exact containment threshold, C15.S1/S3/S4 inverse-projection pairing. Does NOT decide the centre/interior round trip (numerical)."),
+  "containment test build geometry with the same constructors, thresholds and quintant; shared: C01.R1-R5/R7 (the lookup returns a cell of the asked resolution accepted by the exact containment test at the query point itself, and rejects no admissible point), C15.S1/S3/S4/S6 inverse-projection pairing. Does NOT decide the centre/interior round trip (numerical)."),
  "C04": ("6/C04", "custom MIR dataflow rule + table predicate on compiler-evaluated constants",
   "Static, thin partial. Decides: boundary points are subdivided in the plane before unprojection (provenance of every inverse-projection argument) and the "
-  "31 tabulated areas equal authalic area / cell count to 1e-12; shared: C15.S1/S3/S4 (matching spherical/squashed triangle, angle helper continuous at its threshold). Does NOT decide that cells have equal area (needs C16, numerical)."),
+  "31 tabulated areas equal authalic area / cell count to 1e-12; shared: C15.S1/S3/S4/S6 (matching spherical/squashed triangle, angle helper continuous at its threshold, reflection test on the sector-reduced azimuth). Does NOT decide that cells have equal area (needs C16, numerical)."),
  "C05": ("6/C05", "symbolic per-regime layout derivation from MIR terms + format-template/idiom rules",
   "Static, partial. Decides for all inputs: hex writer is exactly LowerHex of the u64 argument with an empty default template; hex reader is u64::from_str_radix(arg,16) "
   "with the error propagated; the writer's and reader's symbolic bit layouts per resolution regime (code<<58, digits<<(60-2r), marker<<(59-2r), guard s<2^(2r-2), "
@@ -26,7 +26,7 @@ CHECKS = {
   "nor that get_resolution's marker scan inverts the writer (loop invariant)."),
  "C06": ("6/C06", "value pin of compiler-evaluated constant tables against the reference release",
   "Static, partial. Decides that the 41 ID-/place-determining named constants, the digit->flips table and the orientation flag sets are value-identical (floats within "
-  "1e-15 relative) to the reference generated from the pinned release; shared structural rules of the consumers: C02.R2 (one relabelling for lookup and geometry), C05.R4 (writer layout), C18.D2/D4 (offset, nearest face), C17.H (curve walks). Necessary for ID stability; does NOT see other edits to the code consuming the tables or literals in function bodies."),
+  "1e-15 relative) to the reference generated from the pinned release; shared structural rules of the consumers: C02.R2 (one relabelling for lookup and geometry), C05.R4 (writer layout), C18.D2-D6 (offset, relabelling, nearest face, indexing face, per-face tables read with one construction index and by nobody else), C17.H (curve walks). Necessary for ID stability; does NOT see other edits to the code consuming the tables or literals in function bodies."),
  "C07": ("6/C07", "custom MIR dataflow rules + small-set evaluation of guard conditions",
   "Static, partial. Decides: target-resolution provenance and range guards of every serialize call in the hierarchy functions; fan-out sets (12 faces / 5 segments) and the exact "
   "(current,target) conditions selecting them; 4^d children with shift 2d for the same d; contiguous enumeration, one push per triple; parent shift 2(cur-target); the world cell is returned exactly under target == -1 (T6). Does NOT decide "
@@ -38,13 +38,13 @@ CHECKS = {
   "Static, partial. Decides: output is append-only inside one forward loop over the input; iteration i expands cells[i] to Some(target) and uses the resolution recorded for index i; the "
   "finer-than-target test runs for every element before the output exists; the fan-out table agrees with the hierarchy over all 746 (resolution, target) pairs; the target is refused up front exactly outside -1..=29 (U5, finite evaluation of the target-only guards); loops are read through the k-th item of the sequence they walk (for / while / enumerate / zip / aligned local vectors alike); shared: C07.T2/T3 (children fan-out and bit placement). Does NOT decide the descendant arithmetic."),
  "C11": ("6/C11", "custom MIR dataflow rules (guarded push, provenance, length-preserving stages)",
-  "Static, thin partial. Decides: ring closure under closed_ring with element 0 of the same normalised vector; requested subdivision honoured; one push per element in each stage; the unwrap reference is a longitude on every path; every +-180 comparison tests the longitude of the point being mapped (B5); split_edges and cell_to_boundary never read the padded 5-slot vertex array (B6); shared: full-period wraps (C19.A5); C04.R1 (ring built from the length-exact split pentagon). "
+  "Static, thin partial. Decides: ring closure under closed_ring with element 0 of the same normalised vector; requested subdivision honoured; one push per element in each stage; the unwrap reference is a longitude on every path; every +-180 comparison tests the longitude of the point being mapped (B5); split_edges and cell_to_boundary never read the padded 5-slot vertex array (B6); split_edges pushes each vertex followed by exactly segments-1 interior points counted in integers (B7: one vertex loop, one integer-counted inner loop, one push each); shared: full-period wraps (C19.A5); C04.R1 (ring built from the length-exact split pentagon). "
   "Does NOT decide finiteness, latitude range, orientation, longitude window (numerical)."),
  "C13": ("6/C13", "global-state census, effect analysis over the resolved call graph, memo-table soundness with key enumeration from the range analysis",
   "Static, all clauses (proof-style: every obligation enumerated and discharged mechanically). For EVERY call history and thread interleaving: statics are immutable, once-cells or "
   "thread-local; no hand-written unsafe impl; the only user unsafe block is the thread-local accessor; once-cell initialisers are argument-free and reach no hidden input; no public "
   "entry point (13 API functions + projection forward/inverse) reaches clock/env/fs/RNG/thread-id/pointer-to-int/shared mutable statics, hash iteration is sorted before use; each memo "
-  "table is written only by its getter, fill-once, with a slot index injective on the value-relevant key over all calling contexts, a key-only value, and the value returned on a miss being the very value stored; the per-thread object never leaves "
+  "table is written only by its getter, fill-once, with a slot index injective on the value-relevant key over all calling contexts, a key-only value, and the value returned on a miss being the very value stored (a key component may be an integer, a bool, a field-less enum, or a row of the face table identified by its position); every other field of the per-thread object written after construction is only a diagnostic counter (never borrowed, never read into a result); the per-thread object never leaves "
   "its thread. Trusts std's OnceLock/LazyLock/thread_local!/lazy_static.", "proof"),
  "C14": ("6/C14", "interprocedural abstract interpretation of MIR (intervals, value sets, linear facts + Fourier-Motzkin, vector lengths, field invariants, case splits)",
   "Static, strong partial. For ALL u64 x i32 (and Option/slice/option-struct) arguments of the 13 API entry points: every integer-determined failure site reachable in any calling context "
@@ -54,16 +54,16 @@ CHECKS = {
   "panics or termination beyond 'no wrapped-negative loop bound / allocation size'."),
  "C15": ("6/C15", "custom MIR sibling-agreement rules",
   "Static, partial. Decides: forward and inverse select (triangle index, reflect) identically from one polar value, unsquashed face triangle, own-face spherical triangle, correct slots and "
-  "un-rotated point; inverse_quat/-angle in, quat/+angle out and in the CRS; inverse_quat = conjugate(quat); squashed only in compute_spherical_triangle; the two formulas of the threshold-guarded acos helper agree to 1e-13 at the threshold the code names (S4: evaluates two extracted closed forms at one constant, not the library); the barycentric map pairs like components of the triangle corners (S5). Does NOT decide round-trip error bounds."),
+  "un-rotated point; inverse_quat/-angle in, quat/+angle out and in the CRS; inverse_quat = conjugate(quat); squashed only in compute_spherical_triangle; the two formulas of the threshold-guarded acos helper agree to 1e-13 at the threshold the code names (S4: evaluates two extracted closed forms at one constant, not the library); the barycentric map pairs like components of the triangle corners (S5); the azimuth handed to the planar conversion in the reflection test lies within +-PI/5 for every input (S6, float interval analysis incl. x - round(x)); which triangle a get_face_triangle call fetches is decided by finite evaluation of its selector parameters (bools or a field-less enum). Does NOT decide round-trip error bounds."),
  "C17": ("6/C17", "table predicates + MIR sibling/provenance rules on the two digit walks",
   "Static, partial. Decides: shift tables are permutations; each inverse table is the index/value swap of the forward table it is paired with; identical orientation flag sets on both "
   "sides and they separate the 6 orientations; every digit rewritten, opposite order; flip alphabet {-1,+1}; same reverse involution; shared: every index/overflow/cast obligation inside a5::core::hilbert from the C14 range analysis (totality for depths 1..29). Does NOT decide injectivity over all 4^n positions."),
  "C18": ("6/C18", "numeric table predicates on compiler-evaluated constants + finite-domain evaluation of MIR-derived formulas + scan-shape rule",
   "Static, partial. Decides: QUATERNIONS is a regular-dodecahedron frame with polar faces and the documented ring structure; offset 93; order permutation; layout classification total; the two "
-  "relabelling formulas, evaluated over first quintant x quintant x the four reference layouts bound to origin.orientation, are mutually inverse bijections using one orientation slot and run against the quintant order exactly on the two clockwise layouts; nearest-face = full scan arg-min (loop or fold); every use of the indexing face in lonlat_to_estimate is find_nearest_origin(from_lon_lat(point)) (D5). Does NOT decide that the modified haversine orders like distance."),
+  "relabelling formulas, evaluated over first quintant x quintant x the four reference layouts bound to origin.orientation, are mutually inverse bijections using one orientation slot and run against the quintant order exactly on the two clockwise layouts; nearest-face = full scan arg-min (loop or fold); every use of the indexing face in lonlat_to_estimate is find_nearest_origin(from_lon_lat(point)) (D5); each Origin is built with its orientation row and first quintant read at one and the same construction index, no row is rewritten afterwards and nobody else reads those tables (D6); shared: C19.A3 (the 93-degree offset is applied in degrees with opposite signs in and out). Does NOT decide that the modified haversine orders like distance."),
  "C19": ("6/C19", "table drift bound + affine mirror comparison of MIR-derived float formulas",
   "Static, thin partial. Decides: coefficient tables within sum(k+1)|delta| <= 1e-15 of the reference; forward/inverse use their own table; from_lon_lat/to_lon_lat are affine mirror images "
-  "(offset, reciprocal factors, same pi/2, forward paired with inverse); apply_coefficients has the single result formula phi + series on every path; every `x > A => x -= B` / `x < -A => x += B` wrap in the coordinate code has B == 2A (A5). Does NOT decide the 1e-12 round trip or monotonicity."),
+  "(offset, reciprocal factors, same pi/2, forward paired with inverse); apply_coefficients has the single result formula phi + series on every path; every `x > A => x -= B` / `x < -A => x += B` wrap in the coordinate code has B == 2A (A5); the authalic functions use no float intrinsic other than sin/cos (A6: the double-angle terms are products, never a square root or an inverse function of another trigonometric value). Does NOT decide the 1e-12 round trip or monotonicity."),
  "C20": ("6/C20", "symbolic layout derivation + affine comparison of stride/mask positions",
   "Static, partial. Decides: big-endian contiguous field order; marker below code for r<2; stride and first-child mask positions equal the writer's last-digit position as affine forms in r; "
   "parents drop LSB digits; shared: C07.T3 (children two bits per level below the parent's digits). Does NOT decide the ordering theorem over all pairs."),
